@@ -122,3 +122,18 @@ func okLocalOnly(n int) int {
 	}
 	return s
 }
+
+// --- C03.R7: wrapping unsigned bound ---
+
+func wrapBad(idx, count, ln uint32) bool {
+	end := count + ln
+	return idx <= end-1 // wraps for end == 0
+}
+
+func wrapGood(idx, count, ln uint32) bool {
+	end := count + ln
+	if end > 0 {
+		return idx <= end-1
+	}
+	return false
+}
